@@ -9,7 +9,9 @@ Four families of models (one model = one generated layout x one clock mode):
             member methods (all / some / none), readonly or not, members with or without own defaults; hardware that
             stores what it is given, and (layouts with write methods) hardware that alters it: 0.5 grid, one member clamped
   floatenum FloatEnumParam with label sets {plain, explicit indices + unit prefixes, explicit values (not monotonic),
-            gaps, duplicated value}; index parameter software only / write method / read + write methods; readonly or not
+            gaps, duplicated value, every unit prefix of the table}; index parameter software only / write method / read +
+            write methods; hardware that stores the index it is given or coerces it (clips the highest index, stays on a
+            fixed index, rounds down to every second index); readonly or not
   limits    <p>_min, <p>_max, both, <p>_limits (automatic TupleOf), <p>_limits typed LimitsType on int / float / scaled
             base parameters (custom parameter x and predefined target), limits optionally preset by configuration; class
             layout: limits declared in the class of the base parameter / in a subclass / in a mixin, the ancestor with or
@@ -56,8 +58,9 @@ Oracle calibration (weaker reading taken wherever the statement leaves latitude)
   * consistency is demanded at quiescent points (after an operation returned), not between two updates of one operation.
   * float/enum: candidates whose distance is within 1e-9 (relative) of the minimum count as ties; either is accepted.
     A write outside [min, max] may be refused or may select the extreme value.  Acceptance of in-range values is not
-    demanded.  The generated hardware stores the index it is given (a device that coerces the index makes "closest"
-    meaningless).
+    demanded.  "Closest" is demanded of hardware that stores the index it is given; for the layouts whose hardware
+    coerces the index the device decides where a write lands, and only F (float == value of the CURRENT index, cache
+    and stream) is demanded.
   * limits: only the refusing direction is demanded (inside-the-limits values may be refused, e.g. by the datatype).
     Any SECoP error counts as refusal (the class is recorded in the outcome histogram; the statement names none).
     "an inverted limits pair is refused": for a parameter typed LimitsType the write of the inverted pair itself must
@@ -494,13 +497,38 @@ LABELSETS = {
     'gaps': ([(2, '1m'), (5, '1mm'), (7, '1µm')], 'm', None, {2: 1.0, 5: 1e-3, 7: 1e-6}),
     'dup': ([('a', 1.0), ('b', 1.0), ('c', 2.0), (6, 'd', 0.5)], '', None, {0: 1.0, 1: 1.0, 2: 2.0, 6: 0.5}),
 }
+# every unit prefix of the table once ('u' and the micro sign are two spellings of micro; 'u' gets the mantissa 2 so that the
+# values differ); reference values written by hand from the SI definitions: quecto 1e-30, ronto 1e-27, yocto 1e-24,
+# zepto 1e-21, atto 1e-18, femto 1e-15, pico 1e-12, nano 1e-9, micro 1e-6, milli 1e-3, (none) 1, kilo 1e3, mega 1e6, giga 1e9,
+# tera 1e12, peta 1e15, exa 1e18, zetta 1e21, yotta 1e24, ronna 1e27, quetta 1e30
+_SI = [('q', 1e-30), ('r', 1e-27), ('y', 1e-24), ('z', 1e-21), ('a', 1e-18), ('f', 1e-15), ('p', 1e-12), ('n', 1e-9),
+       ('u', 1e-6), ('µ', 1e-6), ('m', 1e-3), ('', 1.0), ('k', 1e3), ('M', 1e6), ('G', 1e9), ('T', 1e12), ('P', 1e15),
+       ('E', 1e18), ('Z', 1e21), ('Y', 1e24), ('R', 1e27), ('Q', 1e30)]
+LABELSETS['prefixes'] = ([('2' if px == 'u' else '1') + px + 'V' for px, _ in _SI], 'V', None,
+                         {i: (2e-6 if px == 'u' else v) for i, (px, v) in enumerate(_SI)})
+
 LABEL_OF = {
     'plain': {0: '1', 1: '2', 2: '4', 3: '8'},
     'indices': {1: '50uV', 2: '200 µV', 3: '1mV', 4: '5mV', 9: 'max'},
     'values': {0: 'lo', 1: 'mid', 2: 'hi'},
     'gaps': {2: '1m', 5: '1mm', 7: '1µm'},
     'dup': {0: 'a', 1: 'b', 2: 'c', 6: 'd'},
+    'prefixes': {i: ('2' if px == 'u' else '1') + px + 'V' for i, (px, _) in enumerate(_SI)},
 }
+
+
+def coerce_index(mode, indices, i):
+    """the index a coercing device really takes when asked for i (indices = sorted allowed indices):
+    'clip' = the highest index is disabled, requests for it land on the one below; 'fixed' = the device stays on one
+    index whatever is asked; 'even' = only every second index exists, the others fall back to the one below"""
+    if mode == 'clip':
+        return min(i, indices[-2])
+    if mode == 'fixed':
+        return indices[len(indices) // 2]
+    if mode == 'even':
+        pos = indices.index(i)
+        return indices[pos - pos % 2]
+    return i
 
 
 def closest(ref, v):
@@ -529,22 +557,28 @@ class FloatEnumModel(Model):
         kw = {'idx_name': idx_name} if idx_name else {}
         ns = {'fe': FloatEnumParam('generated float enum', list(labels), unit, readonly=s['readonly'], **kw), '_hw': None}
         hw = s['hw']
+        # coercing index hardware: write_<idx> lands on another index than requested and says so
+        self.coerce = coerce = s.get('coerce')
+        allowed = sorted(ref)
         if hw in ('w', 'rw'):
             def write_idx(self, value):
-                self._hw['idx'] = int(value)
-                return int(value)
+                self._hw['idx'] = coerce_index(coerce, allowed, int(value))
+                return self._hw['idx']
             ns['write_' + self.iname] = write_idx
         if hw == 'rw':
             def read_idx(self):
                 return self._hw['idx']
             ns['read_' + self.iname] = read_idx
-        self.cls = type(f'FE_{s["labels"]}_{hw}', (Module,), ns)
+        self.cls = type(f'FE_{s["labels"]}_{hw}_{coerce}', (Module,), ns)
 
         vals = sorted(set(ref.values()))
         lo, hi = vals[0], vals[-1]
         cands = list(vals)
         for a, b in zip(vals, vals[1:]):
-            cands += [(a + b) / 2, a + (b - a) / 4, a + 3 * (b - a) / 4, a + 0.45 * (b - a), a + 0.55 * (b - a)]
+            cands += [(a + b) / 2]
+            if len(vals) > 12 and core.TIER == 'quick':
+                continue      # long ladders: label values and midpoints only in the quick tier
+            cands += [a + (b - a) / 4, a + 3 * (b - a) / 4, a + 0.45 * (b - a), a + 0.55 * (b - a)]
             if core.TIER == 'thorough':
                 cands += [math.nextafter((a + b) / 2, -math.inf), math.nextafter((a + b) / 2, math.inf),
                           math.nextafter(a, math.inf), math.nextafter(b, -math.inf)]
@@ -562,7 +596,7 @@ class FloatEnumModel(Model):
             if dwrite:
                 ops.append(['d', 'w', 'F', v])
         indices = sorted(ref)
-        bad = next(i for i in range(0, 12) if i not in ref)
+        bad = next(i for i in range(0, 40) if i not in ref)
         for i in indices:
             ops.append(['c', 'w', 'I', i])
             if dwrite:
@@ -631,7 +665,8 @@ class FloatEnumModel(Model):
                     found.append((f'floatenum:stream:float-differs-from-value-of-index:after-{opc}',
                                   f'update stream: {self.fname} = {vf[1]!r} but {self.iname} = {vi[1]!r} (value {want!r})'))
         # transition oracle: an accepted float write selected the closest allowed value
-        if not found and op and op[1] == 'w' and op[2] == 'F' and res[0] == 'ok':
+        # (not demanded of hardware that coerces the index: there the device decides, only invariant F remains)
+        if not found and not self.coerce and op and op[1] == 'w' and op[2] == 'F' and res[0] == 'ok':
             v = op[3]
             best = closest(self.ref, v)
             allowed = [self.ref[k] for k in best]
@@ -655,6 +690,21 @@ def floatenum_specs(tier):
                     continue
                 for c in ('slow', 'fast'):
                     res.append(dict(family='floatenum', labels=ls, hw=hw, readonly=ro, clock=c))
+    # labels running through every unit prefix of the table
+    # (22 indices: without a read method for the index, which would square the number of states)
+    for hw, c in (('soft', 'slow'), ('w', 'fast')) if tier == 'quick' else [(h, c) for h in ('soft', 'w')
+                                                                            for c in ('slow', 'fast')]:
+        res.append(dict(family='floatenum', labels='prefixes', hw=hw, readonly=False, clock=c))
+    # hardware that coerces the requested index
+    if tier == 'quick':
+        rows = [('plain', 'w', 'clip'), ('indices', 'rw', 'clip'), ('plain', 'rw', 'even'), ('values', 'w', 'fixed'),
+                ('indices', 'w', 'even'), ('gaps', 'rw', 'fixed')]
+    else:
+        rows = [(ls, hw, co) for ls in ('plain', 'indices', 'values', 'gaps', 'dup') for hw in ('w', 'rw')
+                for co in ('clip', 'fixed', 'even')]
+    for ls, hw, co in rows:
+        for c in ('slow', 'fast'):
+            res.append(dict(family='floatenum', labels=ls, hw=hw, readonly=False, coerce=co, clock=c))
     return res
 
 
